@@ -56,6 +56,15 @@ func (s asScenario) run(o *Out, r *Rng) {
 	}
 	authoriser := "@auth:hs1"
 	cc := map[string]interface{}{"creator": creator, "room_version": s.ver}
+	// auth modes 4 / 5: the authorising user is the room creator / an additional creator (no entry in `users`:
+	// privileged in version 12, an ordinary defaulted user elsewhere)
+	if s.auth == 4 {
+		authoriser = creator
+	}
+	if s.auth == 5 {
+		authoriser = "@cocreator:hs1"
+		cc["additional_creators"] = []string{authoriser}
+	}
 	if s.fed == 1 || s.fed == 2 {
 		cc["m.federate"] = false
 	}
@@ -79,7 +88,9 @@ func (s asScenario) run(o *Out, r *Rng) {
 		if !s.self {
 			users[target] = sl + int64(s.tRel)
 		}
-		users[authoriser] = int64(0)
+		if s.auth < 4 {
+			users[authoriser] = int64(0)
+		}
 		if s.auth == 3 {
 			users[authoriser] = int64(50)
 		}
@@ -108,8 +119,10 @@ func (s asScenario) run(o *Out, r *Rng) {
 		switch s.auth {
 		case 1:
 			add(g.Mk(spec.MRoomMember, authoriser, sp(authoriser), map[string]interface{}{"membership": "leave"}, nil, nil, nil))
-		case 2, 3:
-			add(g.Mk(spec.MRoomMember, authoriser, sp(authoriser), map[string]interface{}{"membership": "join"}, nil, nil, nil))
+		case 2, 3, 4, 5:
+			if authoriser != sender {
+				add(g.Mk(spec.MRoomMember, authoriser, sp(authoriser), map[string]interface{}{"membership": "join"}, nil, nil, nil))
+			}
 		}
 	}
 	ev := g.Mk(spec.MRoomMember, sender, sp(target), content, []string{"$prev:hs1"}, nil, nil)
@@ -137,7 +150,7 @@ func enumAuthSpace(f func(asScenario)) {
 					s.self, s.sm, s.tm, s.newM, s.jr = true, sm, sm, nm, jr
 					auths := []int{0}
 					if nm == "join" && (jr == "restricted" || jr == "knock_restricted") {
-						auths = []int{0, 1, 2, 3}
+						auths = []int{0, 1, 2, 3, 4, 5}
 					}
 					for _, a := range auths {
 						s.auth = a
